@@ -165,3 +165,126 @@ Print Assumptions C09_close_one_emits_close.
 Print Assumptions C09_leave_room_emits_close.
 Print Assumptions C09_leave_call_emits_close.
 Print Assumptions C09_revoke_emits_close.
+
+(* ============================================================================================================
+   C09J — the media server's side: the bookkeeping of mcuJanus (model/Janus.v, proofs/Janus_proofs.v), scenario
+   C09J of the check (corr/Run_C09J.v, harness c09j_verif_test.go).  The names of model/Janus.v shadow those of the
+   hub model from here on. *)
+From Verif Require Import model.Janus corr.Run_C09J proofs.Janus_proofs.
+
+(* Close takes a publisher (that has a handle and a room) and every subscriber out of mcu.clients -- whether the
+   gateway is up or down and whatever it answers to "destroy" / "detach" ... *)
+Theorem C09J_close_unregisters : forall st c x rd rt,
+  get_obj st c = Some x ->
+  (c_kind x = Pub -> c_handle x <> HNone /\ c_room x <> HNone) ->
+  memN c (m_clients (fst (close st c rd rt))) = false.
+Proof. exact close_unregisters. Qed.
+(* ... and the publisher's stream key out of mcu.publishers. *)
+Theorem C09J_close_pub_frees_key : forall st c x rd rt,
+  get_obj st c = Some x -> c_kind x = Pub -> c_handle x <> HNone -> c_room x <> HNone ->
+  pub_of (m_pubs (fst (close st c rd rt))) (ckey x) = None.
+Proof. exact close_pub_frees_key. Qed.
+
+(* For every history (any length, any placement of gateway losses, reconnects, refused requests, further creations
+   and closes): a client that is out of mcu.clients is never registered again, and its handles and rooms at the gateway
+   never become more -- nothing is created for it. *)
+Theorem C09J_closed_never_registered_nothing_created : forall ops st c,
+  c <> 0 -> c < m_next st -> memN c (m_clients st) = false ->
+  let st' := run_from st ops in
+  memN c (m_clients st') = false /\
+  countN c (g_handles st') <= countN c (g_handles st) /\ countN c (g_rooms st') <= countN c (g_rooms st).
+Proof. exact never_again. Qed.
+(* Once nothing of it is at the gateway, nothing ever is again. *)
+Theorem C09J_closed_stays_gone : forall ops st c,
+  c <> 0 -> c < m_next st -> memN c (m_clients st) = false ->
+  memN c (g_handles st) = false -> memN c (g_rooms st) = false ->
+  memN c (g_handles (run_from st ops)) = false /\ memN c (g_rooms (run_from st ops)) = false.
+Proof. exact never_again_nothing. Qed.
+(* One step, any state: the only clients something is created for at the gateway are the new one and registered ones. *)
+Theorem C09J_step_creates_only_for_registered : forall st o c,
+  c <> 0 -> c < m_next st -> memN c (m_clients st) = false -> shrinks c st (step_st st o).
+Proof. exact step_shrinks. Qed.
+
+(* After doReconnect every handle and room at the gateway is the MCU's own handle or was made for a client registered
+   when the reconnect began (leftovers of closed clients are gone, nothing is made for them). *)
+Theorem C09J_reconnect_only_registered : forall st fail c,
+  let st' := fst (reconnect st fail) in
+  (In c (g_handles st') -> c = 0 \/ In c (m_clients st)) /\ (In c (g_rooms st') -> In c (m_clients st)).
+Proof. exact reconnect_only_registered. Qed.
+
+(* A Close while the gateway does not answer leaves the gateway exactly as it was: the handle and the room of the
+   client stay there (until the gateway forgets the session) ... *)
+Theorem C09J_close_while_down_gateway_unchanged : forall st c rd rt,
+  reachable st = false ->
+  let st' := fst (close st c rd rt) in
+  g_handles st' = g_handles st /\ g_rooms st' = g_rooms st /\ g_up st' = g_up st /\ g_sess st' = g_sess st.
+Proof. exact close_while_down_gateway_unchanged. Qed.
+(* ... while with the gateway answering, the handle and the room are taken away. *)
+Theorem C09J_close_while_up_removes : forall st c x,
+  get_obj st c = Some x -> reachable st = true -> c_kind x = Pub -> c_handle x = HLive -> c_room x = HLive ->
+  let st' := fst (close st c false false) in
+  g_handles st' = remove1 c (g_handles st) /\ g_rooms st' = remove1 c (g_rooms st).
+Proof. exact close_while_up_removes. Qed.
+
+(* Close is idempotent: closing a closed client changes no table. *)
+Theorem C09J_close_idempotent : forall st c rd rt,
+  (forall y, In y (m_objs st) -> c_id y = c -> c_closed y = true /\ c_handle y = HNone) ->
+  memN c (m_clients st) = false ->
+  fst (close st c rd rt) = st.
+Proof. exact close_closed_noop. Qed.
+
+(* "At most one publisher per session and stream type" is NOT kept by mcuJanus itself (it is kept by its caller,
+   C09_one_publisher_per_stream): a second NewPublisher for the same stream is registered next to the first ... *)
+Theorem C09J_one_publisher_per_stream_refuted : exists ops k,
+  (2 <=? N.of_nat (length (registered_pubs_with (run ops) k))) = true.
+Proof. exact second_publisher_refuted. Qed.
+(* ... and closing the first takes the key of the second away: nobody can subscribe to the second. *)
+Theorem C09J_second_publisher_loses_key : exists ops,
+  memN 2 (m_clients (run ops)) = true /\ pub_of (m_pubs (run ops)) (1, 0) = None /\
+  snd (fst (step (run ops) (ONewSub 3 1 0))) = RErrTimeout.
+Proof. exact second_publisher_loses_key. Qed.
+
+(* ---- non-vacuity: the history of the seeded change's demonstration, and P_C09J on model traces --------------- *)
+Definition c09j_demo : list op := [ONewPub 1 0 false; OGwDown true; OClose 1 false false; OReconnect []].
+Example C09J_demo_clean :
+  let st := run c09j_demo in (g_handles st, g_rooms st, m_clients st, m_pubs st) = ([0], [], [], []).
+Proof. vm_compute. reflexivity. Qed.
+(* a close while the gateway is unreachable leaves handle 1 and room 1 there; after it is reachable again they are
+   still there (nobody will ever close them); the next reconnect forgets them and re-creates only publisher 2 *)
+Definition c09j_left : list op := [ONewPub 1 0 false; ONewPub 2 0 false; OGwDown false; OClose 1 false false; OGwUp].
+Example C09J_left_until_forgotten :
+  (g_handles (run c09j_left), g_rooms (run c09j_left), m_clients (run c09j_left)) = ([0; 1; 2], [1; 2], [2]) /\
+  (let st := run (c09j_left ++ [OReconnect []]) in (g_handles st, g_rooms st, m_clients st)) = ([0; 2], [2], [2]).
+Proof. vm_compute. auto. Qed.
+(* no subscriber survives a reconnect (mcu.publishers is emptied and never refilled by NotifyReconnected) *)
+Example C09J_reconnect_closes_subscribers :
+  step (run [ONewPub 1 0 false; ONewSub 2 1 0]) (OReconnect []) =
+  (run [ONewPub 1 0 false; ONewSub 2 1 0; OReconnect []], RNone, [ESubClosed 2]) /\
+  m_clients (run [ONewPub 1 0 false; ONewSub 2 1 0; OReconnect []]) = [1] /\
+  m_pubs (run [ONewPub 1 0 false; ONewSub 2 1 0; OReconnect []]) = [].
+Proof. vm_compute. auto. Qed.
+(* the trace predicate holds on the model's traces of these histories (the general statement is not proved) *)
+Example C09J_P_on_model_traces :
+  forallb (fun ops => P_C09J (trace_of ops))
+    [c09j_demo; c09j_left ++ [OReconnect []; ONewPub 1 0 false; OCloseAll 1; OCloseAll 2];
+     [ONewPub 1 0 false; ONewSub 2 1 0; OClose 1 true false; OClose 2 false true; OReconnect [(1, 0)]; OGwDown true; ONewPub 3 1 false];
+     [ONewPub 1 0 false; ONewPub 1 0 false; OClose 1 false false; ONewSub 3 1 0; OClose 2 false false]] = true.
+Proof. vm_compute. reflexivity. Qed.
+(* ... and fails on the trace the seeded change C09-5 produces (publisher 1 still registered after its close) *)
+Example C09J_P_rejects_seeded_trace :
+  P_C09J [(ONewPub 1 0 false, ob (ROk 1) [], dg true [0; 1] [1] [1] [((1, 0), 1)] [rw 1 Pub 1 1 0 true true]);
+          (OGwDown true, ob RNone [], dg false [] [] [1] [((1, 0), 1)] [rw 1 Pub 1 1 0 true true]);
+          (OClose 1 false false, ob RNone [], dg false [] [] [1] [] [rw 1 Pub 1 1 0 false false])] = false.
+Proof. vm_compute. reflexivity. Qed.
+
+Print Assumptions C09J_close_unregisters.
+Print Assumptions C09J_close_pub_frees_key.
+Print Assumptions C09J_closed_never_registered_nothing_created.
+Print Assumptions C09J_closed_stays_gone.
+Print Assumptions C09J_step_creates_only_for_registered.
+Print Assumptions C09J_reconnect_only_registered.
+Print Assumptions C09J_close_while_down_gateway_unchanged.
+Print Assumptions C09J_close_while_up_removes.
+Print Assumptions C09J_close_idempotent.
+Print Assumptions C09J_one_publisher_per_stream_refuted.
+Print Assumptions C09J_second_publisher_loses_key.
